@@ -204,6 +204,16 @@ def law_grid(ctx, qi, neg):
             sched.reset()
             _eq(ctx, c.time_to_next_beat(clk.Quant(q, ph)), r - c.beats, 'time_to_next_beat != grid - beats',
                 _data('time-to-next-beat', names, q=q))
+            # other spellings of the same quant: (quant, phase) pair, list; a bare number means phase 0
+            for sp, rr in (((q, ph), r), ([q, ph], r), (q, c.next_time_on_grid(q, 0))):
+                sched.reset()
+                c.play(lambda: None, sp)
+                ents = list(sched.queue)
+                if len(ents) != 1:
+                    raise Violation('play(quant) did not queue exactly one task', None, dt)
+                _eq(ctx, ents[0][0], c.beats2secs(rr), 'play(quant) given as a pair / list / bare number does not '
+                    'schedule at next_time_on_grid', _data('play-quant', names, q=q))
+            sched.reset()
     return {'law': 'grid', 'q': q, 'neg_phase': bool(neg)}
 
 
@@ -214,6 +224,20 @@ def law_grid_zero(ctx):
     with Env(main, th, phys):
         _eq(ctx, c.next_time_on_grid(0, ph, ref), ref + ph, 'quant 0 must return refbeat + phase',
             _data('grid-zero', names))
+        # every spelling of "no quantisation" schedules at the current beat
+        from sc3.base import clock as clk
+        sched = main._clock_scheduler
+        for sp in (0, 0.0, (0, 0), [0, 0], clk.Quant(0), clk.Quant(0, 0)):
+            dz = _data('play-zero', names, spelling=repr(sp))
+            sched.reset()
+            c.play(lambda: None, sp)
+            ents = list(sched.queue)
+            if len(ents) != 1:
+                raise Violation(f'play(task, {sp!r}) did not queue exactly one task', None, dz)
+            _eq(ctx, ents[0][0], c.beats2secs(c.beats), f'play(task, {sp!r}) does not schedule at the current beat '
+                '(quant 0 = no quantisation)', dz)
+            sched.reset()
+            _eq(ctx, c.time_to_next_beat(sp), 0, f'time_to_next_beat({sp!r}) != 0', dz)
         try:
             c.next_time_on_grid(-1, ph, ref)
             raise Violation('negative quant accepted', None, _data('grid-negative', names))
@@ -431,6 +455,27 @@ def replay(rec):
                     return f'play(quant) queued {ents}'
                 if not tol(c.time_to_next_beat(clk.Quant(q, ph)), c.next_time_on_grid(q, ph) - c.beats):
                     return 'time_to_next_beat disagrees'
+                for sp, rr in (((q, ph), c.next_time_on_grid(q, ph)), ([q, ph], c.next_time_on_grid(q, ph)),
+                               (q, c.next_time_on_grid(q, 0))):
+                    sched.reset()
+                    c.play(lambda: None, sp)
+                    ents = list(sched.queue)
+                    sched.reset()
+                    if len(ents) != 1 or not tol(ents[0][0], c.beats2secs(rr)):
+                        return f'play(task, {sp!r}) queued {ents}, next_time_on_grid is beat {rr}'
+            return None
+        if law == 'play-zero':
+            sched = main._clock_scheduler
+            for sp in (0, 0.0, (0, 0), [0, 0], clk.Quant(0), clk.Quant(0, 0)):
+                sched.reset()
+                c.play(lambda: None, sp)
+                ents = list(sched.queue)
+                sched.reset()
+                if len(ents) != 1 or not tol(ents[0][0], c.beats2secs(c.beats)):
+                    return f'play(task, {sp!r}) at beat {c.beats} queued the task for second ' \
+                           f'{ents[0][0] if ents else None}; the current beat is second {c.beats2secs(c.beats)}'
+                if not tol(c.time_to_next_beat(sp), 0):
+                    return f'time_to_next_beat({sp!r}) = {c.time_to_next_beat(sp)} at beat {c.beats}'
             return None
         if law in ('grid-zero', 'grid-negative'):
             if not tol(c.next_time_on_grid(0, g('phase'), g('ref')), g('ref') + g('phase')):
